@@ -161,4 +161,166 @@ theorem protectedTail_protect (mask : MaskFn) (env : Env) (name : KeyName) (chac
     slice_split d _ payload rest _ _ hd3 (by simp [henc, hpnml]; omega) (by omega)
   simp only [n3, s4]
 
+theorem ofNat_toNat (n : Nat) (h : n ≤ 255) : (UInt8.ofNat n).toNat = n := by
+  simp; omega
+
+theorem long_first_bits : ∀ t : Fin 3, ∀ r l : Fin 4,
+    let f := UInt8.ofNat (0xC0 + t.val * 16 + r.val * 4 + l.val)
+    isLong f = true ∧ ((f &&& 0x30) >>> 4).toNat = t.val ∧ (f &&& 3).toNat = l.val := by decide
+
+theorem long_first (p : Long) (h : p.wf) :
+    isLong p.first = true ∧ packetType p.first = p.ty.ptype ∧ (p.first &&& 3).toNat + 1 = p.pn.length := by
+  obtain ⟨hr, _, _, _, h1, h4, _⟩ := h
+  have hb : p.ty.bits < 3 := by cases p.ty <;> simp [LType.bits]
+  have := long_first_bits ⟨p.ty.bits, hb⟩ ⟨p.reserved, hr⟩ ⟨p.pn.length - 1, by omega⟩
+  simp only at this
+  unfold Long.first
+  refine ⟨this.1, ?_, by rw [this.2.2]; omega⟩
+  unfold packetType
+  rw [this.2.1]
+  cases p.ty <;> rfl
+
+/-- the common long-header prefix: first byte, Version, DCID Length, DCID, SCID Length, SCID -/
+theorem header_facts (fb : UInt8) (version dcid scid T d : Bytes) (hv : version.length = 4)
+    (hsl : scid.length ≤ 63)
+    (hd : d = fb :: (version ++ (UInt8.ofNat dcid.length :: (dcid ++ (UInt8.ofNat scid.length :: (scid ++ T)))))) :
+    need d 6 = .ok () ∧ Bytes.slice d 1 5 = version ∧ d[5]? = some (UInt8.ofNat dcid.length) ∧
+    need d (6 + dcid.length) = .ok () ∧ Bytes.slice d 6 (6 + dcid.length) = dcid ∧
+    need d (7 + dcid.length) = .ok () ∧
+    decodeVarint (Bytes.slice d (6 + dcid.length) (7 + dcid.length)) = some scid.length ∧
+    need d (7 + dcid.length + scid.length) = .ok () ∧
+    Bytes.slice d (7 + dcid.length) (7 + dcid.length + scid.length) = scid := by
+  have e1 : d = [fb] ++ (version ++ (UInt8.ofNat dcid.length :: (dcid ++ (UInt8.ofNat scid.length :: (scid ++ T))))) := hd
+  have e2 : d = (fb :: version) ++ ([UInt8.ofNat dcid.length] ++ (dcid ++ (UInt8.ofNat scid.length :: (scid ++ T)))) := by
+    rw [hd]; simp
+  have e3 : d = (fb :: version ++ [UInt8.ofNat dcid.length]) ++ (dcid ++ (UInt8.ofNat scid.length :: (scid ++ T))) := by
+    rw [hd]; simp
+  have e4 : d = (fb :: version ++ [UInt8.ofNat dcid.length] ++ dcid) ++ ([UInt8.ofNat scid.length] ++ (scid ++ T)) := by
+    rw [hd]; simp
+  have e5 : d = (fb :: version ++ [UInt8.ofNat dcid.length] ++ dcid ++ [UInt8.ofNat scid.length]) ++ (scid ++ T) := by
+    rw [hd]; simp
+  refine ⟨need_split d _ _ _ _ e2 (by simp [hv]), slice_split d _ _ _ _ _ e1 rfl (by rw [hv]), ?_,
+    need_split d _ _ _ _ e3 (by simp [hv]), slice_split d _ _ _ _ _ e3 (by simp [hv]) rfl,
+    need_split d _ _ _ _ e4 (by simp [hv]; omega), ?_, need_split d _ _ _ _ e5 (by simp [hv]; omega),
+    slice_split d _ _ _ _ _ e5 (by simp [hv]; omega) rfl⟩
+  · rw [e2, List.getElem?_append_right (by simp [hv])]; simp [hv]
+  · have := slice_split d _ [UInt8.ofNat scid.length] _ (6 + dcid.length) (7 + dcid.length) e4
+      (by simp [hv]; omega) (by simp; omega)
+    rw [this, decodeVarint_single _ (by rw [ofNat_toNat _ (by omega)]; omega), ofNat_toNat _ (by omega)]
+
+/-! ### statement vocabulary: which header-protection key and algorithm the SENDER of a packet used
+(RFC 9001 §5.1: one set of keys per encryption level and direction; 0-RTT packets are only sent by clients;
+§5.2: Initial packets always use AEAD_AES_128_GCM, hence the AES-based header protection of §5.4.3) -/
+
+def senderKey : LType → Bool → KeyName
+  | .initial, true => .serverInitial
+  | .initial, false => .clientInitial
+  | .handshake, true => .serverHandshake
+  | .handshake, false => .clientHandshake
+  | .zeroRtt, _ => .clientEarly
+
+def senderChacha : LType → Bool → Bool
+  | .initial, _ => false
+  | _, c => c
+
+theorem extractLong_protect (mask : MaskFn) (env : Env) (isServer : Bool) (ts : Nat) (p : Long) (hwf : p.wf)
+    (hver : p.version ≠ [0, 0, 0, 0]) (hscid : p.scid.length ≤ 63)
+    (h20 : 20 ≤ p.pn.length + p.payload.length)
+    (key m : Bytes) (hk : env.keys (senderKey p.ty isServer) = some key)
+    (hm : mask (senderChacha p.ty env.chacha) key p.sample = some m) (hm5 : 5 ≤ m.length) (rest : Bytes) :
+    extractLong mask env isServer ts (p.protect m ++ rest) (p.first ^^^ (m.headD 0 &&& 0x0f)) =
+      .ok (p.toPkt isServer ts, some (p.protect m).length) := by
+  obtain ⟨hL, hT, hP⟩ := long_first p hwf
+  have hwf' := hwf
+  obtain ⟨hr, hv, hdl, hsl, h1, h4, hft, hfl⟩ := hwf'
+  generalize hd : p.protect m ++ rest = d
+  generalize hpnm : xorBytes p.pn ((m.drop 1).take p.pn.length) = pnm
+  have hd' : d = (p.first ^^^ (m.headD 0 &&& 0x0f)) :: (p.version ++ (UInt8.ofNat p.dcid.length :: (p.dcid ++
+      (UInt8.ofNat p.scid.length :: (p.scid ++ (p.tokenPart ++ (p.lengthField ++ (pnm ++ (p.payload ++ rest))))))))) := by
+    rw [← hd, ← hpnm]; simp [Long.protect, applyMask, Long.mid]
+  obtain ⟨n1, s1, g5, n2, s2, n3, dv, n4, s4⟩ := header_facts _ _ _ _ _ d hv hscid hd'
+  have hto := ofNat_toNat _ hdl
+  unfold extractLong
+  simp only [n1, s1, g5, ofOpt, bind, Except.bind, hto, n2, s2, n3, dv, n4, s4, if_neg hver, packetType_mask, hT]
+  have hpnml : pnm.length = p.pn.length := by
+    rw [← hpnm]; exact xorBytes_length _ _ (by simp only [List.length_take, List.length_drop]; omega)
+  have hplen : (p.protect m).length = 1 + 4 + 1 + p.dcid.length + 1 + p.scid.length + p.tokenPart.length +
+      p.lenW.w + p.pn.length + p.payload.length := by
+    simp only [Long.protect, applyMask, Long.mid, hpnm, List.length_cons, List.length_append, hv, hpnml,
+      Long.lengthField, VW.enc_length, List.length_nil]
+    omega
+  have hPT := fun (name : KeyName) (chacha : Bool) (pre : Bytes) (lenOff : Nat)
+      (hk : env.keys name = some key) (hm : mask chacha key (sampleOf p.pn p.payload) = some m)
+      (hd : d = pre ++ (p.lenW.enc (p.pn.length + p.payload.length) ++ (pnm ++ (p.payload ++ rest))))
+      (ho : lenOff = pre.length) =>
+    protectedTail_protect mask env name chacha key m p.first p.lenW d pre p.pn p.payload rest hk hm hm5 hP h20 hfl
+      (by rw [hpnm]; exact hd) lenOff ho
+  cases hty : p.ty
+  case handshake =>
+    simp only [hty, senderKey, senderChacha, Long.sample] at hk hm
+    have htp : p.tokenPart = [] := by simp [Long.tokenPart, hty]
+    rw [htp, List.nil_append] at hd'
+    rw [htp] at hplen
+    have := hPT (if isServer = true then .serverHandshake else .clientHandshake) env.chacha
+      ((p.first ^^^ (m.headD 0 &&& 0x0f)) :: (p.version ++ (UInt8.ofNat p.dcid.length :: (p.dcid ++
+        (UInt8.ofNat p.scid.length :: p.scid))))) (7 + p.dcid.length + p.scid.length)
+      (by cases isServer <;> simpa using hk) hm
+      (by rw [hd']; simp only [List.cons_append, List.append_assoc, Long.lengthField])
+      (by simp only [List.length_cons, List.length_append, hv]; omega)
+    simp only [LType.ptype, this, Long.toPkt, hty, Long.lengthField, hplen, List.length_nil]
+    congr 3
+  case zeroRtt =>
+    simp only [hty, senderKey, senderChacha, Long.sample] at hk hm
+    have htp : p.tokenPart = [] := by simp [Long.tokenPart, hty]
+    rw [htp, List.nil_append] at hd'
+    rw [htp] at hplen
+    have := hPT .clientEarly env.chacha
+      ((p.first ^^^ (m.headD 0 &&& 0x0f)) :: (p.version ++ (UInt8.ofNat p.dcid.length :: (p.dcid ++
+        (UInt8.ofNat p.scid.length :: p.scid))))) (7 + p.dcid.length + p.scid.length)
+      (by cases isServer <;> simpa using hk) hm
+      (by rw [hd']; simp only [List.cons_append, List.append_assoc, Long.lengthField])
+      (by simp only [List.length_cons, List.length_append, hv]; omega)
+    simp only [LType.ptype, this, Long.toPkt, hty, Long.lengthField, hplen, List.length_nil]
+    congr 3
+  case initial =>
+    simp only [hty, senderKey, senderChacha, Long.sample] at hk hm
+    have htp : p.tokenPart = p.tokenW.enc p.token.length ++ p.token := by simp [Long.tokenPart, hty]
+    rw [htp] at hd' hplen
+    generalize hpre : (p.first ^^^ (m.headD 0 &&& 0x0f)) :: (p.version ++ (UInt8.ofNat p.dcid.length :: (p.dcid ++
+        (UInt8.ofNat p.scid.length :: p.scid)))) = pre at *
+    have hprel : pre.length = 7 + p.dcid.length + p.scid.length := by
+      rw [← hpre]; simp only [List.length_cons, List.length_append, hv]; omega
+    have hd2 : d = pre ++ (p.tokenW.enc p.token.length ++ (p.token ++ (p.lengthField ++ (pnm ++ (p.payload ++ rest))))) := by
+      rw [hd', ← hpre]; simp only [List.cons_append, List.append_assoc]
+    obtain ⟨b, r, hb, hbl, hdec⟩ := decode_enc p.tokenW p.token.length hft
+      (p.token ++ (p.lengthField ++ (pnm ++ (p.payload ++ rest))))
+    have henc : (p.tokenW.enc p.token.length).length = p.tokenW.w := VW.enc_length _ _
+    have hw := VW.w_pos p.tokenW
+    rw [List.take_append_of_le_length (by omega), List.take_of_length_le (by omega)] at hdec
+    have m1 : need d (7 + p.dcid.length + p.scid.length + 1) = .ok () :=
+      need_split d pre _ _ _ hd2 (by omega)
+    have t1 : Bytes.slice d (7 + p.dcid.length + p.scid.length) (7 + p.dcid.length + p.scid.length + 1) = [b] :=
+      slice_split d pre [b] r _ _ (by rw [hd2, hb]; rfl) (by omega) rfl
+    have m2 : need d (7 + p.dcid.length + p.scid.length + p.tokenW.w) = .ok () :=
+      need_split d pre _ _ _ hd2 (by omega)
+    have t2 : Bytes.slice d (7 + p.dcid.length + p.scid.length) (7 + p.dcid.length + p.scid.length + p.tokenW.w)
+        = p.tokenW.enc p.token.length := slice_split d pre _ _ _ _ hd2 (by omega) (by omega)
+    have hd3 : d = (pre ++ p.tokenW.enc p.token.length) ++ (p.token ++ (p.lengthField ++ (pnm ++ (p.payload ++ rest)))) := by
+      rw [hd2, List.append_assoc]
+    have m3 : need d (7 + p.dcid.length + p.scid.length + p.tokenW.w + p.token.length) = .ok () :=
+      need_split d _ _ _ _ hd3 (by simp only [List.length_append]; omega)
+    have t3 : Bytes.slice d (7 + p.dcid.length + p.scid.length + p.tokenW.w)
+        (7 + p.dcid.length + p.scid.length + p.tokenW.w + p.token.length) = p.token :=
+      slice_split d _ _ _ _ _ hd3 (by simp only [List.length_append]; omega) rfl
+    have := hPT (if isServer = true then .serverInitial else .clientInitial) false
+      (pre ++ p.tokenW.enc p.token.length ++ p.token)
+      (7 + p.dcid.length + p.scid.length + p.tokenW.w + p.token.length)
+      (by cases isServer <;> simpa using hk) hm
+      (by rw [hd2]; simp only [List.append_assoc, Long.lengthField])
+      (by simp only [List.length_append]; omega)
+    simp only [LType.ptype, m1, t1, getVarintLength, hbl, m2, t2, hdec, m3, t3, this, Long.toPkt, hty,
+      Long.lengthField, hplen, List.length_append, henc]
+    congr 3
+    omega
+
 end TLX.Lemmas.QuicDissect
